@@ -407,8 +407,8 @@ where
             return Err(SparseFormatError::IncompatibleDimension);
         }
 
-        //check for colptr monotonicity
-        if self.colptr.windows(2).any(|c| c[0] > c[1]) {
+        //check for colptr monotonicity, starting from zero
+        if self.colptr[0] != 0 || self.colptr.windows(2).any(|c| c[0] > c[1]) {
             return Err(SparseFormatError::BadColptr);
         }
         Ok(())
